@@ -520,7 +520,8 @@ Print Assumptions C01_run_run.""" % (STEP_STMT % "Step")) if full else ""))
         use_alt = alt_ok and lok.get("GenCpuAlt")
         rv = os.path.join(vlib.RUN, "C01_runlatched.v")
         vlib.write_if_changed(rv, cpulatch.RUN_V % {
-            "imports": stm["imports"].replace("C01AdcRef.", "C01AdcRef C01Props.").replace("C01L_C01AdcRef.", "C01L_C01AdcRef C01L_C01Props."),
+            "imports": (stm["imports"].replace("C01L_C01AdcRef.", "C01L_C01AdcRef C01L_C01Props.") if "C01L_" in stm["imports"]
+                        else stm["imports"].replace("C01AdcRef.", "C01AdcRef C01Props.")),
             "altreq": " C01_transport_alt C01_latch_GenCpuAlt" if use_alt else "",
             "alt": cpulatch.ALT_PART if use_alt else ""})
         rcr, outr, _, _ = vlib.coqc(rv, timeout=900)
